@@ -99,7 +99,7 @@ Proof.
     remember (enc_lz4seqs seqs ++ enc_lz4last last) as more eqn:Emore.
     rewrite <- app_assoc in *. unfold enc_lz4seq in *. rewrite <- !app_assoc in *. cbn [app] in *.
     remember (ls_lits s) as lits eqn:El. remember (ls_off s) as off eqn:Eo. remember (ls_mlen s) as ml eqn:Em.
-    rewrite blen_cons, !blen_app, !blen_cons in Hpos.
+    rewrite <- ?Emore in Hpos |- *. autorewrite with blen in Hpos.
     pose proof (blen_nonneg (lz4_lenbytes (blen lits))). pose proof (blen_nonneg (lz4_lenbytes (ml - 4))).
     cbn [lz4_loop].
     destruct ((pos <? dlen) && (bn r <? rawSize)) eqn:E; [|lia]. clear E.
@@ -133,4 +133,30 @@ Proof.
     { unfold apply_lz4seq. rewrite C3, F1, <- El, <- Eo, <- Em. reflexivity. }
     rewrite <- FA in *.
     subst more. apply IH; auto; try lia.
+Qed.
+
+Lemma enc_lz4seqs_length seqs : (length seqs <= length (enc_lz4seqs seqs))%nat.
+Proof.
+  induction seqs as [|s seqs IH]; [cbn; lia|].
+  unfold enc_lz4seqs in *. cbn [map concat]. rewrite app_length. unfold enc_lz4seq at 1. cbn [app length]. lia.
+Qed.
+
+Theorem decompressLZ4_denotes s out t :
+  lz4_denotes s out -> decompressLZ4 {| vis := s; tail := t |} (blen out) = Ok (DOk out).
+Proof.
+  intros (seqs & last & OK & -> & ->).
+  unfold enc_lz4block. fold (enc_lz4seqs seqs).
+  pose proof (enc_lz4seqs_length seqs) as Ls.
+  assert (L1 : 1 <= blen (enc_lz4last last)).
+  { unfold enc_lz4last. bl. pose proof (blen_nonneg (lz4_lenbytes (blen last))). pose proof (blen_nonneg last). lia. }
+  unfold decompressLZ4, len. cbn [vis].
+  set (d := enc_lz4seqs seqs ++ enc_lz4last last).
+  assert (Ld : blen d = blen (enc_lz4seqs seqs) + blen (enc_lz4last last)) by (unfold d; bl; lia).
+  pose proof (blen_nonneg (enc_lz4seqs seqs)).
+  destruct (blen d <? 1) eqn:E; [lia|]. clear E.
+  unfold go_make0. pose proof (decompressCap_nonneg (blen (run_lz4seqs seqs [] ++ last)) (blen d) ltac:(lia)).
+  destruct (decompressCap _ _ <? 0) eqn:E; [lia|]. clear E. cbn [bind].
+  unfold d. apply (lz4_loop_ok seqs last _ 0 rb_empty); auto using rb_empty_wf.
+  - rewrite app_length. unfold blen in *. lia.
+  - rewrite rb_empty_fwd. bl. lia.
 Qed.
